@@ -10,7 +10,7 @@ ASSUMPTIONS = [
     "oracle: RDKit canonical, map-stripped, fragment-sorted reaction must be among the canonicalised outputs",
 ]
 RULE = {
-    "quick": "every corpus reaction satisfying the precondition x template {centre, full ITS} x {forward, backward} x strategies (centre: all/comp/bt; full: bt); plus 10 renumbering/re-rooting variants each (template extracted from the variant, substrate written as in the variant, strategy bt)",
+    "quick": "every corpus reaction satisfying the precondition x template {centre, full ITS} x {forward, backward} x strategies (centre: all/bt; full ITS: bt/comp; the reaction string as template: bt, forwards then backwards in one process); plus 10 renumbering/re-rooting variants each (template extracted from the variant, substrate written as in the variant, strategy bt)",
     "thorough": "all strategies for both template kinds; all variants (all shifts, centre permutations, re-rootings, fragment orders)",
 }
 
